@@ -575,6 +575,7 @@ type Contract struct {
 	Trusted    bool
 	MayPanic   bool
 	NoSafety   bool // skip implicit panic obligations (stated in evidence)
+	AssumePre  bool // callee preconditions are assumed, not proved, in this function (stated in evidence)
 	Wraps      bool // signed +,- wrap exactly (no overflow obligations)
 	Pure       bool // (assumed contracts) deterministic function of the argument values
 	Atomics    []*AtomicSpec
@@ -639,7 +640,7 @@ type UFDecl struct {
 
 var clauseKeywords = map[string]bool{"ghoststruct": true, "guarded": true, "uf": true, "pred": true,"func": true, "lemma": true, "interface": true, "property": true, "mode": true,
 	"requires": true, "ensures": true, "assert": true, "bind": true, "modifies": true, "inline": true, "trusted": true, "loop": true, "invariant": true,
-	"decreases": true, "maypanic": true, "forall": false, "ghost": true, "method": true, "assume": true, "vars": true, "nosafety": true, "pure": true, "witness": true, "wraps": true,
+	"decreases": true, "maypanic": true, "forall": false, "ghost": true, "method": true, "assume": true, "vars": true, "nosafety": true, "assumepre": true, "pure": true, "witness": true, "wraps": true,
 	"atomic": true, "rely": true, "guarantee": true, "addassume": true}
 
 // LoadSpecs reads every verif_contracts.go under the repo plus the assumed
@@ -993,6 +994,10 @@ func (db *SpecDB) loadFile(path, pkg string, assumed bool) error {
 		case "nosafety":
 			if curC != nil {
 				curC.NoSafety = true
+			}
+		case "assumepre":
+			if curC != nil {
+				curC.AssumePre = true
 			}
 		case "wraps":
 			if curC != nil {
